@@ -329,12 +329,19 @@ def binop(self, op, a, b):
         sa, sb = a.single_atom(), b.single_atom()
         if sa is not None and sb is not None and sa.kind in ('list', 'tuple') and sb.kind == sa.kind:
             return T.mk_tuple(sa.args + sb.args, sa.kind)
+        if sa is not None and sb is not None and sa.kind == sb.kind and sa.kind in ('str', 'bytes'):
+            return Term.of(Atom(sa.kind, sa.args[0] + sb.args[0]))          # constant folding of text
         if (sa is not None and sa.kind == 'str') or (sb is not None and sb.kind == 'str'):
             return T.mk_call('strcat', [a, b])
         return a + b
     if isinstance(op, ast.Sub):
         return a - b
     if isinstance(op, ast.Mult):
+        for x_, y_ in ((a, b), (b, a)):
+            xa_ = x_.single_atom()
+            if xa_ is not None and xa_.kind in ('str', 'bytes') and y_.const() is not None and y_.const().denominator == 1 \
+                    and 0 <= y_.const() <= 4096:
+                return Term.of(Atom(xa_.kind, xa_.args[0] * int(y_.const())))
         sa = a.single_atom()
         if sa is not None and sa.kind == 'list' and b.const() is not None and b.const().denominator == 1:
             return T.mk_tuple(sa.args * int(b.const()), 'list')
